@@ -211,7 +211,7 @@ class HistRunner:
             return entry, anoms, None
         # ---- model
         m_before = m.copy()
-        ok, ctx = m.command(list(targets), forced=forced, keep=keep, obs=set(ex), obsn=dict(ex))
+        ok, ctx = m.command(list(targets), forced=forced, keep=keep, obs=set(ex), obsn=dict(ex), parallel=(j > 1))
         def missing_runs(ctx):
             # (target, reason) of model executions that the observation does not have (multiset difference)
             out = []
@@ -235,7 +235,7 @@ class HistRunner:
                 if d in m.R[dn].seen:
                     m.R[dn].seen[d] = m.ver(d)
             self.late = set()
-            ok, ctx = m.command(list(targets), forced=forced, keep=keep, obs=set(ex), obsn=dict(ex))
+            ok, ctx = m.command(list(targets), forced=forced, keep=keep, obs=set(ex), obsn=dict(ex), parallel=(j > 1))
             anoms.append(Anomaly(cls='underbuild', key='underbuild:forced-rebuild-after-check-in-same-run-not-seen-by-dependents',
                                  cont=True, target=late_hits[0][0],
                                  what='%s was not rebuilt although %s was force-rebuilt (redo) in a run that had already checked one of them'
@@ -269,7 +269,13 @@ class HistRunner:
         for n in sorted(set(ex) - exp):
             anoms.append(Anomaly(cls='overbuild', key='overbuild:%s:%s' % (kinds_of(p, n), 'stamp-below' if stamp_below(p, n) else 'no-stamp-below'),
                                  target=n, what='%s ran although the model finds no reason' % n))
-        for n, w in sorted(missing_runs(ctx), key=str):
+        # In a failing parallel command without --keep-going, what was started before the failure became known
+        # depends on the schedule (C05: "no new target is started after the first failure is known"), so a script
+        # the model expected but that did not run is not an under-build there.
+        sched_dependent = (j > 1 and not keep and (not ok or r.rc != 0))
+        if sched_dependent:
+            self.stats['underbuild_not_judged_failing_parallel'] = self.stats.get('underbuild_not_judged_failing_parallel', 0) + len(missing_runs(ctx))
+        for n, w in sorted(missing_runs(ctx) if not sched_dependent else [], key=str):
             anoms.append(Anomaly(cls='underbuild', key='underbuild:%s:%s' % (kinds_of(p, n), reason_class(w)),
                                  target=n, what='%s ran %d time(s), the model expects %d; model reason: %s' % (n, ex.get(n, 0), ctx['ran'].count(n), w)))
         if (r.rc == 0) != ok:
